@@ -445,13 +445,18 @@ def check(case) -> Case:
     return Case(key=key, nontrivial=bool(nontrivial), labels=labels, failures=uniq)
 
 
+SLOW = []  # commands that needed the fresh-process confirmation and finished there (reported in the evidence notes)
+
+
 def confirm_hang(case, root, detail, where):
     """Re-run in a fresh subprocess with a generous limit; only then is it a hang."""
     args = ["nesting" if where == "library" else where, "--format", "json", "."]
     try:
         t0 = time.time()
         runner.run_cli_sub(args, cwd=root, timeout=300)
-        return [Failure(f"slow|{where if where != 'library' else 'all-rules'}", {**detail, "seconds_in_fresh_process": round(time.time() - t0, 1)})] if where != "library" and time.time() - t0 > 60 else []
+        # it terminated: slow (super-linear analysis, busy machine) is not "hangs" - a time budget never decides the property
+        SLOW.append({"where": where, "seconds_in_fresh_process": round(time.time() - t0, 1), "case": {k: case.get(k) for k in ("kind", "blow", "n", "lang")}})
+        return []
     except subprocess.TimeoutExpired:
         return [Failure(f"hang|{where}", {**detail, "limit_s": 300})]
 
@@ -535,6 +540,8 @@ def run(ctx):
     ctx.explore(exts(), check, max_examples=ctx.n(8, 100), salt=5)
     if not ctx.quick:
         fuzz_stage(ctx)
+    for rec in SLOW[:10]:
+        ctx.stats.notes.append(f"slow but terminating: {rec}")
 
 
 def replay(case) -> Case:
